@@ -259,7 +259,11 @@ pub fn gen_decision(rng: &mut Rng, sc: &mut Scenario, e: usize, p: usize, class:
         },
         2 => Decision::Drop,
         3 => Decision::DelayPastTimeout,
-        4 => Decision::Close,
+        4 => match rng.below(4) {
+            0 | 1 => Decision::Close,
+            2 => Decision::DeliverThenReset,
+            _ => Decision::DeliverThenStall,
+        },
         5 => Decision::Subst {
             from: FrameRef { ep: e, kind: p },
         },
